@@ -62,6 +62,7 @@ type Sub struct {
 	Returned bool
 	Panic    any
 	PanicAt  string
+	Empty    bool  // raw write of zero bytes (carries no identity)
 	N        int   // raw via handle: returned n
 	Err      error // raw via handle: returned err
 }
@@ -210,7 +211,13 @@ func (sys *asyncSys) submit(task, seq int, op AOp, reuse *[]byte) *Sub {
 	var pv any
 	var st string
 	if op.Raw {
-		p := rawPayload(task, seq, op.Size)
+		var p []byte
+		if op.Size < 0 {
+			p = []byte{}
+			sb.Empty = true
+		} else {
+			p = rawPayload(task, seq, op.Size)
+		}
 		sb.Payload = append([]byte(nil), p...)
 		buf := p
 		if reuse != nil {
@@ -321,6 +328,9 @@ func genProducers(rt *rapid.T, s *AsyncScn, maxProd, total int, rawShare int) {
 			op := AOp{Size: rapid.SampledFrom([]int{0, 0, 5, 30}).Draw(rt, "size")}
 			if rapid.IntRange(0, 9).Draw(rt, "raw") < rawShare {
 				op.Raw = true
+				if len(s.Refs) == 1 && rapid.IntRange(0, 7).Draw(rt, "empty_raw") == 0 {
+					op.Size = -1 // an empty raw write is a legal io.Writer call
+				}
 			} else {
 				op.Lvl = rapid.SampledFrom(asyncLevels).Draw(rt, "lvl")
 			}
